@@ -28,6 +28,9 @@ checks = {
  "C05": ("fault_enumeration", "deviation-bounded exploration of fault points (k-th host call fails, by error or by panic) over enumerated programs, oracle = reference evaluator run with the same fault",
          "every program of the C02 grammar (depth-1 full, chains of length 2) plus lazy/deep/tail/loop contexts: default run counts the host calls N, then each k<=N x {error, panic} re-runs on a fresh interpreter; result, trace, stacks at rest and a 17-item follow-up battery must equal the reference evaluator's after the same fault (thorough: + a second fault during the follow-ups); 14 malformed forms in every hole of every context and 8 unparsable texts must yield errors and leave the interpreter usable",
          "trusts R1's treatment of a fault (global effects before the fault persist); single fault per program run (thorough: two)", "§3 C05"),
+ "C04": ("model_checking", "explicit-state BFS over evaluation histories on one long-lived real interpreter (state = VM stack depths + user globals + macros), plus batch evaluation of the program grammars",
+         "all histories of depth 3 (thorough 4) over a 43-form alphabet covering every form family of the surface language incl. declarations, macros, packages, infix, failing forms and empty input; in every state the four VM stacks are at rest after a success, empty input evaluates to nil, and evaluating the forms in one call equals one at a time; additionally ~42k generated programs run in batches of 40 on one interpreter with stacks checked after every success",
+         "state key = depths + printed user globals + macro names (read through verif accessors); bounded depth and alphabet", "§3 C04"),
 }
 all_ids = ["C%02d" % i for i in range(1, 21)]
 pending = {i: "check not built yet in this tree (see DESIGN.md §7 build order); will be claimed when its machinery lands" for i in all_ids if i not in checks}
